@@ -26,11 +26,24 @@ log_level(False)
 
 # ---- virtual clock: integer ticks of 1/1024 s ----------------------------------------------------
 class Clock:
+    """stands in for the `time` module (and for its functions, when a module imported them by name)"""
+
     def __init__(self):
         self.ticks = 1024 * 1024
 
     def time(self):
         return self.ticks / 1024.0
+
+    # the same clock under the other names code may reasonably use
+    monotonic = perf_counter = time
+
+    def time_ns(self):
+        return self.ticks * 1000000000 // 1024
+
+    monotonic_ns = perf_counter_ns = time_ns
+
+    def __call__(self):
+        return self.time()
 
     def sleep(self, s):
         self.ticks += max(1, int(round(s * 1024)))
@@ -109,12 +122,27 @@ sys.modules.setdefault('serial', serial)
 sys.modules.setdefault('serial.serialutil', serialutil)
 
 
+def patch_time(module):
+    """whatever way the module reaches the clock - `import time`, `from time import time / monotonic / sleep …` - goes
+    to the virtual clock"""
+    import time as real_time
+    for name, val in list(vars(module).items()):
+        if val is real_time:
+            setattr(module, name, CLK)
+        elif val in (real_time.time, real_time.monotonic, real_time.perf_counter):
+            setattr(module, name, CLK.time)
+        elif val in (real_time.time_ns, real_time.monotonic_ns, real_time.perf_counter_ns):
+            setattr(module, name, CLK.time_ns)
+        elif val is real_time.sleep:
+            setattr(module, name, CLK.sleep)
+
+
 def install_clock():
     import ubxlib.server_base as sb
-    sb.time = CLK
+    patch_time(sb)
     try:
         import ubxlib.server_tty as tty
-        tty.time = CLK
+        patch_time(tty)
     except Exception:      # a broken back end must not take the other components down
         pass
 
